@@ -35,7 +35,9 @@ Verbs == {"load", "house", "init", "server", "logger", "log", "loggee", "framer"
           "print", "put", "inc", "copy", "set", "aux", "rear", "raze", "go", "let", "do", "bid", "ready", "start", "stop",
           "run", "abort", "use", "flo", "give", "take"}
 \* words that are none of the above: names, numbers in every documented form, paths, strings, debris
-Garbage == {"zz9", "-3", "1.5", "0x1f", "2j", "inf", ".x.y", "a..b", "$%", "\"q s\"", "'s q'", "7up", "_u", "me", "all",
+\* LongWord: 32 word characters and a character no path may hold (a path pattern that backtracks takes 2^32 steps on it)
+LongWord == "aaaaaaaaaaaaaaaaaaaaaaaaaaaaaaaa!"
+Garbage == {LongWord, "zz9", "-3", "1.5", "0x1f", "2j", "inf", ".x.y", "a..b", "$%", "\"q s\"", "'s q'", "7up", "_u", "me", "all",
             "value", "framer", "main", "45N30.5", "1x2y", "goal", "elapsed", "mine", "frame", "done", "updated", "aux"}
 
 \* ------------------------------------------------------------------ grammar
@@ -97,7 +99,15 @@ Faulty == { <<"go", "nowhere">>, <<"aux", "nobody">>,
             <<"put", "x", "1", "y", "2", "into", ".s.v">>, <<"put", "3", "into", "x", "y", "in", ".s.w">>, <<"put", "3", "into", ".s.w">>,
             <<"copy", "x", "y", "in", ".s.w", "into", ".s.v">>, <<"copy", ".s.v", "into", ".s.w">>, <<"inc", ".s.v", "with", "x", "1", "y", "2">>,
             <<"inc", ".s.w", "with", "1">>, <<"set", ".s.v", "with", "x", "1", "y", "2">>, <<"set", ".s.w", "from", ".s.v">>,
-            <<"do", "nothing", "known">>, <<"do", "vfrec", "for", ".s.w">> }
+            <<"do", "nothing", "known">>, <<"do", "vfrec", "for", ".s.w">>,
+            \* a tasker of the wrong kind where a framer / slave is named (lg is the logger, sv the server, fr an active framer)
+            <<"aux", "lg">>, <<"aux", "sv">>, <<"aux", "lg", "as", "mine">>, <<"aux", "lg", "if", ".s.a">>, <<"done", "lg">>,
+            <<"ready", "lg">>, <<"rear", "lg", "in", "frame", "f2">>, <<"go", "f2", "if", "aux", "lg", "is", "done">>,
+            \* a long word that is no path, wherever a path is read
+            <<"put", "1", "into", LongWord>>, <<"put", LongWord, "into", ".s.a">>, <<"copy", LongWord, "into", ".s.a">>,
+            <<"inc", LongWord, "with", "1">>, <<"set", LongWord, "with", "1">>, <<"go", "f2", "if", LongWord>>,
+            <<"go", "f2", "if", ".s.a", "==", LongWord>>, <<"do", "vfrec", "via", LongWord>>, <<"do", "vfrec", "per", "ia", LongWord>>,
+            <<"bid", "stop", "me", "at", LongWord>>, <<"aux", "mo", "as", "cl9", "via", LongWord>> }
 \* (.s.v holds only `value`, .s.w holds x and y; no valid command form touches them)
 
 \* commands before / after the body; the body stands in frame f1 of framer fr
